@@ -10,6 +10,7 @@ CONSTANTS
  KeepT = {TRUE}
  MaxClock = 4
  MaxGen = 4
+ HbCoalesce = 0
  FixSubChange = TRUE
  FixHbRefresh = TRUE
  DevHbNoGen = FALSE
@@ -23,13 +24,18 @@ CONSTANTS
  DevNoLaggerDrop = FALSE
  DevNoExpire = FALSE
  DevLaggerSkippedOnExpiry = FALSE
+ DevRestoreSkipsExpired = FALSE
+ DevJoinPutFailDropsMember = FALSE
+ DevMalformedJoinGhost = FALSE
+ DevJoinNewSkipsLoad = FALSE
+ DevJoinIgnoresLoadError = FALSE
  DevSyncRefusesIdle = FALSE
  DevHbWriteUnlocked = FALSE
  DevCleanupWriteUnlocked = TRUE
  DevSyncLookupUnlocked = FALSE
 INIT Init
 NEXT Next
-PROPERTIES C15_RestoreEqual C15_NotFenced C15_KeepWorking
+PROPERTIES C15_RestoreEqual C15_NotFenced C15_ActsOnRestored C15_KeepWorking
 CONSTRAINT GenBound
 VIEW View
 CHECK_DEADLOCK FALSE
